@@ -282,4 +282,239 @@ theorem modelStarts_facts (mode : Option Bool) (isQ : List (Instr Rat)) (st0 : L
       have := t3 i j hij (by rw [hlen]; exact hj) hs hc
       exact_mod_cast this
 
+/-! ## the channels of the scheduled pulses are chains; the grouping loop succeeds -/
+
+/-- the gap clause of C12's `ValidG` alone: every idle gap of the channel is `0` or above `thr` -/
+def GapOK (thr : Rat) : Rat → List (Rat × Concat.Wave) → Prop
+  | _, [] => True
+  | last, (s, w) :: rest => (s - last = 0 ∨ s - last > thr) ∧ GapOK thr (s + w.dur) rest
+
+theorem validG_of_chain_gap (thr : Rat) (ch : List (Rat × Concat.Wave)) : ∀ last, Concat.Chain last ch → GapOK thr last ch →
+    Concat.ValidG thr last ch := by
+  induction ch with
+  | nil => intro _ _ _; trivial
+  | cons sw rest ih =>
+    intro last hc hg
+    obtain ⟨s, w⟩ := sw
+    exact ⟨hc.1, hc.2.1, hg.1, ih _ hc.2.2 hg.2⟩
+
+theorem chain_of_pairwise (L : List (Rat × Concat.Wave)) : ∀ last, (∀ u ∈ L, Concat.WaveOK u.2) → (∀ u ∈ L, last ≤ u.1) →
+    L.Pairwise (fun u v => u.1 + u.2.dur ≤ v.1) → Concat.Chain last L := by
+  induction L with
+  | nil => intro _ _ _ _; trivial
+  | cons x rest ih =>
+    intro last hw hl hp
+    obtain ⟨s, w⟩ := x
+    obtain ⟨h1, h2⟩ := List.pairwise_cons.mp hp
+    exact ⟨hw (s, w) (by simp), hl (s, w) (by simp),
+      ih _ (fun u hu => hw u (by simp [hu])) (fun u hu => h1 u hu) h2⟩
+
+/-- what the compiled instructions satisfy: the Hamiltonian of the channel acts on qubits of the gate, and the label
+names a control of the model -/
+def ChanOK (circular : Bool) (N : ℕ) (isQ : List (Instr Rat)) : Prop :=
+  ∀ i ∈ isQ, (∀ q ∈ chanQubits circular N i, q ∈ i.gate.qubits) ∧
+    (∀ pn, i.chan = some pn → (control? circular N pn.1 pn.2).isSome = true)
+
+theorem ham_qubits_ne (h : Ham) : h.qubits ≠ [] := by cases h <;> simp [Ham.qubits]
+
+/-- two instructions on the same channel use a common qubit -/
+theorem shares_of_same_chan (circular : Bool) (N : ℕ) (i j : Instr Rat) (pn : String × Int)
+    (hi : i.chan = some pn) (hj : j.chan = some pn)
+    (hci : ∀ q ∈ chanQubits circular N i, q ∈ i.gate.qubits) (hcj : ∀ q ∈ chanQubits circular N j, q ∈ j.gate.qubits)
+    (hctl : (control? circular N pn.1 pn.2).isSome = true) : Shares i.gate j.gate := by
+  obtain ⟨h, hh⟩ := Option.isSome_iff_exists.mp hctl
+  obtain ⟨pre, k⟩ := pn
+  have e1 : chanQubits circular N i = h.qubits.map Int.toNat := by simp only [chanQubits, hi, hh]
+  have e2 : chanQubits circular N j = h.qubits.map Int.toNat := by simp only [chanQubits, hj, hh]
+  obtain ⟨q, rest, hq⟩ := List.exists_cons_of_ne_nil (ham_qubits_ne h)
+  refine ⟨q.toNat, hci _ ?_, hcj _ ?_⟩
+  · rw [e1, hq]; simp
+  · rw [e2, hq]; simp
+
+/-- **every channel of the scheduled pulses is a chain**: sorted by start, non-overlapping, first start ≥ 0, positive
+durations — from the schedule facts -/
+theorem chain_chanJ (circular : Bool) (N : ℕ) (enc : String × Int → ℕ) (henc : Function.Injective enc)
+    (isQ : List (Instr Rat)) (st0 : List Rat) (σ : List ℕ) (hσ : σ.Perm (List.range isQ.length))
+    (hsorted : (σ.map fun k => st0.getD k 0).Pairwise (· ≤ ·)) (hpos : ∀ i ∈ isQ, 0 < i.dur)
+    (hok : ChanOK circular N isQ) (hf : SchedFacts isQ st0) (l : ℕ) :
+    Concat.Chain 0 (chanJ l (schedJ enc isQ st0 σ)) := by
+  apply chain_of_pairwise
+  · intro u hu
+    obtain ⟨j, hj, _, rfl⟩ := mem_chanJ hu
+    unfold schedJ at hj
+    obtain ⟨k, hk, rfl⟩ := List.mem_map.mp hj
+    have hk' : k < isQ.length := List.mem_range.mp (hσ.subset hk)
+    have ek : isQ.getD k dfltI = isQ[k] := by
+      rw [List.getD_eq_getElem?_getD, List.getElem?_eq_getElem hk']; rfl
+    show (0 : Rat) < (toRI enc (isQ.getD k dfltI) _).d
+    rw [ek]; exact hpos _ (List.getElem_mem hk')
+  · intro u hu
+    obtain ⟨j, hj, _, rfl⟩ := mem_chanJ hu
+    unfold schedJ at hj
+    obtain ⟨k, hk, rfl⟩ := List.mem_map.mp hj
+    exact hf.nonneg k (List.mem_range.mp (hσ.subset hk))
+  · unfold chanJ schedJ
+    refine List.Pairwise.filterMap _ ?_ (List.pairwise_map.mpr ?_)
+      (R := fun u v : RI => u.chan = some l → v.chan = some l → u.s + u.d ≤ v.s)
+    · intro u v huv b hb b' hb'
+      by_cases h1 : u.chan = some l
+      · by_cases h2 : v.chan = some l
+        · rw [if_pos h1] at hb; rw [if_pos h2] at hb'
+          cases Option.mem_def.mp hb; cases Option.mem_def.mp hb'
+          exact huv h1 h2
+        · rw [if_neg h2] at hb'; cases hb'
+      · rw [if_neg h1] at hb; cases hb
+    · have hnd : σ.Nodup := hσ.nodup_iff.mpr List.nodup_range
+      have hs' : σ.Pairwise fun a b => st0.getD a 0 ≤ st0.getD b 0 := List.pairwise_map.mp hsorted
+      refine List.Pairwise.imp_of_mem ?_ (hnd.and hs')
+      intro a b ha hb hab h1 h2
+      obtain ⟨hne, hle⟩ := hab
+      have ha' : a < isQ.length := List.mem_range.mp (hσ.subset ha)
+      have hb' : b < isQ.length := List.mem_range.mp (hσ.subset hb)
+      have ea : isQ.getD a dfltI = isQ[a] := by
+        rw [List.getD_eq_getElem?_getD, List.getElem?_eq_getElem ha']; rfl
+      have eb : isQ.getD b dfltI = isQ[b] := by
+        rw [List.getD_eq_getElem?_getD, List.getElem?_eq_getElem hb']; rfl
+      rw [ea] at h1 ⊢; rw [eb] at h2 ⊢
+      simp only [toRI] at h1 h2 ⊢
+      obtain ⟨pa, hpa, hea⟩ := Option.map_eq_some_iff.mp h1
+      obtain ⟨pb, hpb, heb⟩ := Option.map_eq_some_iff.mp h2
+      have hpp : pa = pb := henc (hea.trans heb.symm)
+      subst hpp
+      have hsh := shares_of_same_chan circular N isQ[a] isQ[b] pa hpa hpb
+        (hok _ (List.getElem_mem ha')).1 (hok _ (List.getElem_mem hb')).1 ((hok _ (List.getElem_mem ha')).2 pa hpa)
+      rcases hf.disjoint a b ha' hb' hne hsh with h | h
+      · exact h
+      · exfalso
+        have := hpos isQ[b] (List.getElem_mem hb')
+        linarith
+
+/-- the grouping loop of `compile` never leaves the model on rectangular pulses -/
+theorem groupPulses_some (J : List RI) : ∀ acc, ∃ out, Concat.groupPulses (J.map fun j => (j.toInstr, j.s)) acc = some out := by
+  induction J with
+  | nil => intro acc; exact ⟨acc, rfl⟩
+  | cons j J ih =>
+    intro acc
+    obtain ⟨ch, s, d, c⟩ := j
+    cases ch with
+    | none =>
+      obtain ⟨out, ho⟩ := ih acc
+      exact ⟨out, by simpa [Concat.groupPulses, RI.toInstr] using ho⟩
+    | some l =>
+      obtain ⟨out, ho⟩ := ih (Concat.addPulse l (s, Concat.Wave.scalar d c) acc)
+      exact ⟨out, by simpa [Concat.groupPulses, RI.toInstr, Concat.groupOne, Concat.mkWave] using ho⟩
+
+/-! ## the composition with the pipeline's own schedule -/
+
+/-- what the scheduler stage hands to `_schedule`: nothing without scheduling, else the start times and the answer `perm`
+of `np.argsort` (any sorting permutation — numpy's sort is not stable) -/
+def schOf (mode : Option Bool) (st0 : List Rat) (perm : List ℕ) : Option (List Rat × List ℕ) :=
+  match mode with
+  | none => none
+  | some _ => some (st0, perm)
+
+/-- **the resolution hypothesis** (cannot be dropped: `C12.tolerance_counterexample`): on every channel the grouping loop
+builds, an idle gap is `0` or larger than the `time_tol` of the source -/
+def GapsResolved (pairs : List (Concat.Instr × Rat)) : Prop :=
+  ∀ groups, Concat.groupPulses pairs [] = some groups →
+    ∀ g ∈ groups, GapOK (Gen.concatSrc.timeTol (groups.map (·.2))) 0 g.2
+
+theorem schedStarts_schOf (enc : String × Int → ℕ) (mode : Option Bool) (isQ : List (Instr Rat)) (st0 : List Rat)
+    (perm : List ℕ) (hst : modelStarts mode isQ = some st0) :
+    schedStarts (isQ.map (toC enc)) (schOf mode st0 perm) = st0 := by
+  cases mode with
+  | none =>
+    simp only [modelStarts, Option.some.injEq] at hst
+    simp only [schOf, schedStarts, cumStarts_toC, hst]
+  | some alap => rfl
+
+theorem instrPropExp_control (circular : Bool) (N : ℕ) (i : Instr ℝ) (A : Matrix (St N) (St N) ℂ)
+    (h : instrPropExp circular N i = some A) (pn : String × Int) (hpn : i.chan = some pn) :
+    (control? circular N pn.1 pn.2).isSome = true := by
+  unfold instrPropExp at h
+  obtain ⟨pre, k⟩ := pn
+  rw [hpn] at h
+  simp only at h
+  cases hc : control? circular N pre k with
+  | none => rw [hc] at h; cases h
+  | some hm => rfl
+
+/-- `ChanOK` for a rational list whose cast has propagators and Hamiltonians on the qubits of the gates -/
+theorem chanOK_of_cast (circular : Bool) (N : ℕ) (isQ : List (Instr Rat)) (ws : List (Matrix (St N) (St N) ℂ))
+    (hws : (isQ.map castI).mapM (instrPropExp circular N) = some ws)
+    (hq : ∀ i ∈ isQ.map castI, ∀ q ∈ chanQubits circular N i, q ∈ i.gate.qubits) : ChanOK circular N isQ := by
+  intro i hi
+  refine ⟨fun q hqq => hq (castI i) (List.mem_map.mpr ⟨i, hi, rfl⟩) q hqq, ?_⟩
+  intro pn hpn
+  obtain ⟨k, hk, rfl⟩ := List.getElem_of_mem hi
+  obtain ⟨hlen, hget⟩ := mapM_some_get _ (isQ.map castI) ws hws
+  rw [List.length_map] at hlen
+  have := hget k (by rw [List.length_map]; exact hk) (by omega)
+  rw [List.getElem_map] at this
+  exact instrPropExp_control circular N (castI isQ[k]) _ this pn hpn
+
+/-- **pulses_product_sched.**  `pulses_product` for the schedule the pipeline model itself produces (`modelStarts`, every
+mode): the hypotheses about the schedule are discharged by C11's `timetable_valid_tree` (`modelStarts_facts`) — what
+remains is the resolution hypothesis `GapsResolved`, `SepAll`, and that at least one instruction carries a pulse. -/
+theorem pulses_product_sched (circular : Bool) (N : ℕ) (enc : String × Int → ℕ) (henc : Function.Injective enc)
+    (tol : Rat) (htol : 0 ≤ tol) (isQ : List (Instr Rat)) (ws : List (Matrix (St N) (St N) ℂ))
+    (hws : (isQ.map castI).mapM (instrPropExp circular N) = some ws) (hpos : ∀ i ∈ isQ, 0 < i.dur)
+    (hnat : ∀ i ∈ isQ, NatInstr i.gate) (hok : ChanOK circular N isQ)
+    (mode : Option Bool) (st0 : List Rat) (hst : modelStarts mode isQ = some st0) (perm : List ℕ)
+    (cis : List Concat.Instr) (st : List Rat)
+    (hs : Concat.schedule (isQ.map (toC enc)) (schOf mode st0 perm) = .ok (cis, st))
+    (hpulse : ∃ i ∈ isQ, i.chan.isSome = true) (hgap : GapsResolved (cis.zip st)) :
+    SchedFacts isQ st0 ∧
+    ∃ (groups : List (ℕ × List (Rat × Concat.Wave))) (chans : List (List Rat × List Rat)),
+      Concat.groupPulses (cis.zip st) [] = some groups ∧
+      Concat.compileS Gen.concatSrc (isQ.map (toC enc)) (schOf mode st0 perm) =
+        some (.ok (some ((groups.map (·.1)).zip (chans.map some)))) ∧
+      (Grid.SepAll tol (chans.map (·.1)) → ∃ (T : List Rat) (rows : List (List Rat)),
+        (∀ zl : Bool, Grid.fullCoeffsV zl tol (chans.map fun c => Grid.Chan.arr c.1 c.2) = .ok (T, rows)) ∧
+        Grid.ordProdL (Grid.runAnalytically 0 ((groups.map (·.1)).map (labelHam circular N enc)) (Grid.slices T rows)) =
+          ordProd ((schedOrder isQ.length (schOf mode st0 perm)).map fun k => ws.getD k 1)) := by
+  have hf := modelStarts_facts mode isQ st0 hst hpos hnat
+  refine ⟨hf, ?_⟩
+  obtain ⟨hσ, hzip, hsorted⟩ := schedule_pairs enc isQ _ cis st (fun i hi => (hpos i hi).le) hs
+  rw [schedStarts_schOf enc mode isQ st0 perm hst] at hzip hsorted
+  set σ := schedOrder isQ.length (schOf mode st0 perm) with hσdef
+  set J := schedJ enc isQ st0 σ with hJdef
+  obtain ⟨groups, hg⟩ : ∃ groups, Concat.groupPulses (cis.zip st) [] = some groups := by
+    rw [hzip]; exact groupPulses_some J []
+  obtain ⟨g1, g2, _⟩ := Concat.groupPulses_spec (cis.zip st) [] groups hg
+  have hnd := g2 (by simp)
+  have hchan : ∀ g ∈ groups, g.2 = chanJ g.1 J := by
+    intro g hgm
+    rw [← Concat.chanLookup_of_mem hnd hgm, g1 g.1, hzip, chanOf_map_toInstr]
+    simp [Concat.chanLookup]
+  have hgn : groups ≠ [] := by
+    rintro rfl
+    obtain ⟨i, hi, hic⟩ := hpulse
+    obtain ⟨pn, hpn⟩ := Option.isSome_iff_exists.mp hic
+    obtain ⟨k, hk, rfl⟩ := List.getElem_of_mem hi
+    have hkσ : k ∈ σ := hσ.symm.subset (List.mem_range.mpr hk)
+    have ek : isQ.getD k dfltI = isQ[k] := by
+      rw [List.getD_eq_getElem?_getD, List.getElem?_eq_getElem hk]; rfl
+    have hjJ : toRI enc isQ[k] (st0.getD k 0) ∈ J := by
+      rw [hJdef]; unfold schedJ
+      exact List.mem_map.mpr ⟨k, hkσ, by rw [ek]⟩
+    have := chanJ_mem hjJ (show (toRI enc isQ[k] (st0.getD k 0)).chan = some (enc pn) by simp [toRI, hpn])
+    have h1 := g1 (enc pn)
+    rw [hzip, chanOf_map_toInstr] at h1
+    simp only [Concat.chanLookup, List.nil_append] at h1
+    rw [← h1] at this
+    simp at this
+  have hvalid : ∀ g ∈ groups, Concat.ValidG (Gen.concatSrc.timeTol (groups.map (·.2))) 0 g.2 := by
+    intro g hgm
+    apply validG_of_chain_gap
+    · rw [hchan g hgm]
+      exact chain_chanJ circular N enc henc isQ st0 σ hσ hsorted hpos hok hf g.1
+    · exact hgap groups hg g hgm
+  have hdisj : PulseDisjoint circular N isQ (schedStarts (isQ.map (toC enc)) (schOf mode st0 perm)) := by
+    rw [schedStarts_schOf enc mode isQ st0 perm hst]
+    exact pulseDisjoint_of_gateDisjoint circular N isQ st0 (fun i hi => (hok i hi).1) hf.disjoint
+  obtain ⟨chans, hc, _, hprod⟩ := pulses_product circular N enc henc tol htol isQ ws hws hpos _ cis st groups hs hg hgn
+    hvalid hdisj
+  exact ⟨groups, chans, hg, hc, hprod⟩
+
 end QipVerif.SpinChain
